@@ -200,11 +200,11 @@ def c12(tier):
     layouts = [(a,) for a in range(NT)] + [(a, b) for a in range(NT) for b in range(NT)]
     triples = list(itertools.product(range(NT), repeat=3))
     rnd.shuffle(triples)
-    layouts += triples[:24 if q else 300]
+    layouts += triples[:12 if q else 300]
     if q:
         pairs = [l for l in layouts if len(l) == 2]
         rnd.shuffle(pairs)
-        layouts = [l for l in layouts if len(l) != 2] + pairs[:60]
+        layouts = [l for l in layouts if len(l) != 2] + pairs[:40]
     for lay in layouts:
         prm = {'k': len(lay), 'gap': 2 if (len(lay) < 3 and 4 not in lay) else 1}
         for i, t in enumerate(lay):
